@@ -81,6 +81,15 @@ Theorem C09_iteration_sorted : forall s M, Full s M ->
 Proof. exact iterate_full. Qed.
 Print Assumptions C09_iteration_sorted.
 
+(* --- erase of an ABSENT key (violated precondition), on any reachable tree, any k < 2^64: the call stops in one of erase's
+   three assertions (null link / prefix of the visited node -- inner node OR LEAF -- differs / presence bit clear), and it stops
+   before any store is issued (the program's micro-step list is empty), i.e. the state is unchanged: no other key's bit is touched *)
+Theorem C09_erase_absent_stops : forall esz lsz s M k, Full s M -> k < K64 -> M k = None ->
+  exists w, erase s k = AssertStop w /\ (w = AEraseNull \/ w = AErasePrefix \/ w = AEraseMask) /\
+            fst (erase_prog s k) = [] /\ step_op esz lsz s (OErase k) = AssertStop w.
+Proof. exact erase_absent_stops. Qed.
+Print Assumptions C09_erase_absent_stops.
+
 (* --- non-vacuity *)
 Definition ex_ops : list op :=
   [OInsert 5 1; OInsert 1152921504606846981 2 (* 0x1000000000000005 *); OFoi 18446744073709551615 3; OFind 5; OIter;
@@ -121,6 +130,15 @@ Example C09_ex_d03 :
   | _ => False
   end.
 Proof. vm_compute. reflexivity. Qed.
+
+(* erase of an absent key that reaches a LEAF with another prefix and shares the low nibble with the present key there
+   (0x15 vs 0x5: the root is the leaf of 0x5; and through a compressed path): stops in the prefix assertion, no store *)
+Example C09_ex_erase_absent_leaf_prefix :
+  run_ops 1 2 st0 [OInsert 5 1; OErase 21] = AssertStop AErasePrefix /\
+  (match run_ops 1 2 st0 [OInsert 5 1] with Ok s => fst (erase_prog s 21) = [] /\ find s 5 = Ok (Some (0%nat, 5)) | _ => False end) /\
+  run_ops 1 2 st0 [OInsert 1152921504606846981 1; OInsert 2305843009213693957 2; OErase 1152921504606847237]
+    = AssertStop AErasePrefix.
+Proof. vm_compute. repeat split. Qed.
 
 (* insert of a present key / erase of an absent key stop in the documented assertions *)
 Example C09_ex_asserts :
